@@ -456,6 +456,10 @@ def run_stack(ctx, progs, gcs, backends_for, timeout):
             ctx.count("runs")
             ctx.count("stack_runs:%s" % mode)
             if mode == "overflow":
+                if c.idx % 5 == 0 and thr == 1:
+                    ctx.sample({"scenario": "stack", "template": c.template, "parameters": c.info, "thread": where, "backend": key[0], "gc": key[1],
+                                "argv": [ci, 1000000000, thr], "outcome": o.key(), "first_frames": [f[0] for f in first_user_frames(o)[1][:3]],
+                                "control": {"argv": [ci, c.ctl_lim, thr], "expected_stdout": "start\nr=%d\nend\n" % c.ctl(c.ctl_lim)}}, limit=2)
                 ctx.observe(("stack", c.template, c.info, thr, key))
                 ctx.count("stack:%s" % c.template)
                 ctx.count("stack_on_%s" % ("main" if thr == 0 else "thread"))
@@ -530,6 +534,10 @@ def run_heap(ctx, progs, gcs, heaps, timeout):
             continue
         ctx.count("runs")
         if mode == "oom":
+            if c.idx % 4 == 1:
+                ctx.sample({"scenario": "heap", "template": c.template, "thread": where, "backend": key[0], "gc": key[1], "DORA_FLAGS": flags,
+                            "argv": [ci, n, thr], "outcome": o.key(), "control": {"DORA_FLAGS": "--max-heap-size=512M", "expected_stdout": "start\nr=%d\nend\n" % c.ctl(n)}},
+                           limit=4)
             ctx.observe(("heap", c.template, heap, thr, key))
             ctx.count("heap:%s" % c.template)
             ctx.count("heap_runs:%dM" % heap)
@@ -574,6 +582,9 @@ def run_sizes(ctx, progs, gcs, ns_for, timeout):
         ctx.count("runs")
         out = o.stdout.decode("utf-8", "replace")
         if mode == "size":
+            if (ci + n) % 7 == 0:
+                ctx.sample({"scenario": "size", "constructor": c.template, "element": c.elem, "length": n, "backend": key[0], "gc": key[1],
+                            "DORA_FLAGS": flags, "outcome": o.key()}, limit=6)
             ctx.observe(("size", c.template, c.elem, n, key))
             ctx.count("size:%s" % c.template)
             ctx.count("size_runs")
@@ -649,7 +660,7 @@ def run(ctx):
     timeout = 300
     # (a) stack
     if "stack" in only:
-        nrec = ctx.pick(1, 8)
+        nrec = ctx.pick(1, 6)
         progs, backends_for = [], {}
         for i in range(nrec):
             r = ctx.rng("rec", i)
@@ -672,7 +683,7 @@ def run(ctx):
     heap_exes = []
     if "heap" in only:
         progs = []
-        for i in range(ctx.pick(1, 3)):
+        for i in range(ctx.pick(1, 2)):
             r = ctx.rng("heap", i)
             src, cases = gen_heap(r, list(HEAP_TEMPLATES))
             progs.append(("heap%02d" % i, src, cases))
@@ -680,7 +691,7 @@ def run(ctx):
     # (c) sizes
     if "size" in only:
         progs = []
-        for i in range(ctx.pick(1, 2)):
+        for i in range(1):
             r = ctx.rng("size", i)
             src, cases = gen_sizes(r, ctx.pick(12, 60))
             progs.append(("size%02d" % i, src, cases))
